@@ -1,4 +1,5 @@
 import RichModel.Lemmas.SyntaxSelect
+import RichModel.Lemmas.Cells
 /-
 Helper lemmas for property C17, part 4: numbered rows, the gutter, fitting.
 -/
@@ -131,5 +132,23 @@ theorem fitLine_crops (cw : Char → Nat) (w : Nat) (pad : Bool) (l : Line) (h :
   have h1 : ¬ cellLen cw l < w := by omega
   have h2 : cellLen cw l > w := h
   simp [h1, h2]
+
+/-- a fitted line never takes more cells than the code column (crop switch off) -/
+theorem fitLine_cellLen_le (cw : Char → Nat) (hsp : cw ' ' = 1) (h2 : ∀ c, cw c ≤ 2) (w : Nat) (pad : Bool) (l : Line) :
+    cellLen cw (fitLine cw w pad false l) ≤ w := by
+  unfold fitLine
+  simp only [Bool.false_eq_true, if_false]
+  by_cases h1 : cellLen cw l < w
+  · simp only [h1, if_true]
+    cases pad with
+    | false => simp; omega
+    | true =>
+      simp only [if_true]
+      rw [cellLen_append, cellLen_replicate, hsp]; omega
+  · simp only [h1, if_false]
+    by_cases h3 : cellLen cw l > w
+    · simp only [h3, if_true]
+      rw [(setCellSize_exact cw hsp h2 l w).1]; exact Nat.le_refl _
+    · simp only [h3, if_false]; omega
 
 end RichModel.Syntax
